@@ -146,6 +146,13 @@ def gen_cases(tier, seed):
             if spell == "dotdot": return "by/../" + s
             return s
         args = ["--driver", driver, "-w", str(r.choice([1, 2, 4, 8]))]
+        for o, pr in (("--fsync", 0.1), ("--no-perms", 0.1), ("--no-timestamps", 0.1), ("--ownership", 0.1), ("--no-progress", 0.1), ("--gitignore", 0.08), ("-f", 0.05)):
+            if r.random() < pr:
+                args.append(o)
+        if r.random() < 0.15:
+            args += ["--reflink", r.choice(["never", "auto"])]
+        if r.random() < 0.2:
+            args += ["--block-size", r.choice(["512", "4096", "1MB"])]
         if has_dir:
             args.append("-r")
         dsp = r.choice(["dst", "dst", "dst/", "@ROOT@/dst", "./dst"]) if dstate != "absent" or has_dir else "dst"
